@@ -23,6 +23,7 @@ INT, FLOAT, BOOL, ARR, INTLIST, IDL, IDLLIST, BOOLLIST = "Z", "Q", "bool", "(lis
 STR, STRLIST, DICT = "string", "(list string)", "(list (string * Q))"
 ELT, OPTELT, CONTENT = "E", "(option E)", "(list (option E))"      # timeslice entries of a correlator (abstract element type E)
 VEC, VECLIST, MATX, PERMLIST = "V", "(list V)", "M", "(list (list Z))"      # eigenvectors / reference matrix of _sort_vectors (abstract)
+MAT2 = "(list (list Q))"      # a two-dimensional numpy float array
 IDLMAP = "(string -> idl)"        # a dictionary name -> configuration list, read only (keys are iterated through an alias)
 EXN = {"IndexError": "IndexError", "ValueError": "ValueError", "ZeroDivisionError": "ZeroDivisionError", "TypeError": "TypeError"}
 
@@ -172,6 +173,16 @@ class Fn:
                 t = self.fresh()
                 binds.append((t, "py_truediv %s %s" % (qa, qb)))
                 return t, FLOAT
+        if ta in (INT, FLOAT) and tb == MAT2 and op is ast.Mult:
+            return "(mat_scale %s %s)" % (self.coerce(a, ta, FLOAT), b), MAT2
+        if ta == MAT2 and tb == MAT2 and op is ast.Sub:
+            t = self.fresh()
+            binds.append((t, "py_mat_sub %s %s" % (a, b)))
+            return t, MAT2
+        if ta == ARR and tb == MAT2 and op is ast.MatMult:
+            t = self.fresh()
+            binds.append((t, "py_vecmat %s %s" % (a, b)))
+            return t, ARR
         if ta == OPTELT and tb == OPTELT and op in (ast.Add, ast.Sub, ast.Mult, ast.Div):
             # arithmetic on two timeslice entries: a None operand raises TypeError
             f = {ast.Add: "eadd", ast.Sub: "esub", ast.Mult: "emul", ast.Div: "ediv"}[op]
@@ -534,6 +545,20 @@ class Fn:
             if ty != ARR:
                 raise TranslateError("%s: np.sum of %s" % (self.name, ty))
             return "(Qsum %s)" % t, FLOAT
+        if dotted == "np.ones" and len(node.args) == 1 and isinstance(node.args[0], ast.Tuple) and len(node.args[0].elts) == 2:
+            (r_, tr), (c_, tc) = [self.expr(e, env, binds) for e in node.args[0].elts]
+            if tr != INT or tc != INT:
+                raise TranslateError("%s: np.ones shape" % self.name)
+            t = self.fresh()
+            binds.append((t, "py_mat_ones %s %s" % (r_, c_)))
+            return t, MAT2
+        if dotted == "np.identity" and len(node.args) == 1:
+            t, ty = self.expr(node.args[0], env, binds)
+            if ty != INT:
+                raise TranslateError("%s: np.identity(%s)" % (self.name, ty))
+            r = self.fresh()
+            binds.append((r, "py_mat_identity %s" % t))
+            return r, MAT2
         if dotted == "np.zeros" and len(node.args) == 1:
             t, ty = self.expr(node.args[0], env, binds)
             if ty != INT:
@@ -898,6 +923,15 @@ def frag_drho(fn):
     return [body[0], ast.Return(value=v.args[0])]
 
 
+def frag_import_jack_samples(fn):
+    """The statements of import_jackknife up to `samples = jacks[1:] @ prj`, returning samples."""
+    body = [st for st in fn.body if not (isinstance(st, ast.Expr) and isinstance(st.value, ast.Constant))]
+    names = [st.targets[0].id if isinstance(st, ast.Assign) and isinstance(st.targets[0], ast.Name) else None for st in body]
+    if names[:3] != ["length", "prj", "samples"]:
+        raise TranslateError("import_jackknife: expected the assignments length, prj, samples first (found %s)" % names[:3])
+    return body[:3] + [ast.Return(value=ast.Name(id="samples", ctx=ast.Load()))]
+
+
 _REP_ALIASES = lambda obj: {"e_content[e_name]": ("v_reps", IDLLIST), "%s.idl[r_name]" % obj: ("v_r_name", IDL)}
 
 # name in the generated file, qualified python name, parameters (python name, type | None = not a value parameter), return type, aliases
@@ -934,6 +968,8 @@ SIGS = [
     dict(coq="compute_drho_radicand", py="Obs.gamma_method._compute_drho", fragment=frag_drho, params=[], ret=FLOAT,
          extra_params=[("v_rho", ARR), ("v_w_max", INT), ("v_e_N", INT), ("v_i", INT)],
          env={"w_max": INT, "e_N": INT, "i": INT}, aliases={"self.e_rho[e_name]": ("v_rho", ARR)}),
+    dict(coq="import_jackknife_samples", py="import_jackknife", fragment=frag_import_jack_samples, params=[], ret=ARR,
+         extra_params=[("v_jacks", ARR)], env={"jacks": ARR}),
     dict(coq="_reduce_deltas", py="_reduce_deltas", params=[("deltas", ARR), ("idx_old", IDL), ("idx_new", IDL)], ret=ARR),
     dict(coq="covariance_calc_gamma", py="_covariance_element.calc_gamma", needs=["_reduce_deltas"],
          params=[("deltas1", ARR), ("deltas2", ARR), ("idx1", IDL), ("idx2", IDL), ("new_idx", IDL)], ret=FLOAT),
